@@ -63,3 +63,24 @@ Definition consts_match_spec (go : list (string * N)) (sc : list (string * N * s
            (classes : list (string * N)) (ss : list spec_method) : bool :=
   forallb (fun c => match const_lookup go (fst (fst c)) with Some v => v =? snd (fst c) | None => false end) sc &&
   forallb (fun s => match const_lookup go ("Method" ++ sm_go_name s) with Some v => v =? sm_id s | None => false end) ss.
+
+(* ---- the grammar as method descriptions (for the failing-input search only) ---- *)
+Fixpoint rsteps_of (its : list item) : list rstep :=
+  match its with
+  | [] => []
+  | IField n k :: t => RField n k :: rsteps_of t
+  | IBits l :: t => RBitsOctet :: map (fun b => RBit (fst b) (snd b)) l ++ rsteps_of t
+  end.
+Fixpoint wsteps_of (its : list item) : list wstep :=
+  match its with
+  | [] => []
+  | IField n k :: t => WField n k :: wsteps_of t
+  | IBits l :: t => WBitsInit :: map (fun b => WBitSet (fst b) (snd b)) l ++ WBitsFlush :: wsteps_of t
+  end.
+Definition spec_desc (s : spec_method) : method_desc :=
+  {| m_name := sm_go_name s; m_class := sm_class s; m_id := sm_id s; m_sync := sm_sync s; m_from_spec := true;
+     m_fields := sm_fields s;
+     m_read := rsteps_of (spec_layout (sm_fields s));
+     m_write := wsteps_of (spec_layout (sm_fields s)) |}.
+Definition spec_dispatch (ss : list spec_method) : list (N * N * string) :=
+  map (fun s => (sm_class s, sm_id s, sm_go_name s)) ss.
